@@ -84,7 +84,17 @@ def gen_case(rng):
         "short_seed": rng.getrandbits(32),
         "line_length": rng.choice([60, 60, 60, 1, 7, 61, 1000, 10 ** 9]),
     }
-    return {"fasta": fa, "scaffolds": scaffolds, "bufs": bufs, "knobs": knobs}
+    case = {"fasta": fa, "scaffolds": scaffolds, "bufs": bufs, "knobs": knobs}
+    # the order in which the buffer sizes are used within one process: usually
+    # largest first; sometimes shuffled, so that state which the code keeps
+    # between calls (a pooled buffer, a remembered position) meets a LARGER
+    # buffer size after a smaller one
+    if rng.random() < 0.4:
+        order = list(bufs)
+        rng.shuffle(order)
+        case["bufs"] = order
+        case["ordered"] = True
+    return case
 
 
 class Sink:
@@ -321,19 +331,36 @@ def execute_case(case, run_seed, tier, tag=""):
             try:
                 ref = None
                 ref_b = None
-                for b in sorted(case["bufs"], reverse=True):
+                order = list(case["bufs"]) if case.get("ordered") else sorted(case["bufs"], reverse=True)
+                if len(order) > 1:
+                    order.append(order[0])  # ... and the first one once more, after all the others
+                for pos, b in enumerate(order):
                     try:
                         res = one_buffer(case, root, b, world)
                     except Bad as bad:
-                        violations.append({"oracle": bad.oracle, "site": bad.site, "detail": bad.detail, "buf": b})
+                        violations.append({"oracle": bad.oracle, "site": bad.site, "detail": bad.detail, "buf": b, "pos": pos})
                         break
                     except Exception as e:  # noqa: BLE001
                         if ref is None:
+                            if b != max(order):
+                                # is it the input, or this buffer size?
+                                try:
+                                    one_buffer(case, root, max(order), world)
+                                except Bad:
+                                    pass
+                                except Exception:  # noqa: BLE001
+                                    discarded = 1
+                                    break
+                                violations.append({
+                                    "oracle": "differential_exception", "site": type(e).__name__,
+                                    "detail": f"buffer_size={b} raised {e!r} although buffer_size={max(order)} succeeds", "buf": b, "pos": pos,
+                                })
+                                break
                             discarded = 1  # the reference (largest buffer) rejects this input: not a workload
                             break
                         violations.append({
                             "oracle": "differential_exception", "site": type(e).__name__,
-                            "detail": f"buffer_size={b} raised {e!r} although buffer_size={ref_b} succeeded", "buf": b,
+                            "detail": f"buffer_size={b} raised {e!r} although buffer_size={ref_b} succeeded", "buf": b, "pos": pos,
                         })
                         break
                     evals += 1
@@ -347,8 +374,9 @@ def execute_case(case, run_seed, tier, tag=""):
                             violations.append({
                                 "oracle": "differential_" + key, "site": what,
                                 "detail": f"{what} differ between buffer_size={b} and buffer_size={ref_b}:\n"
-                                          f" b={b}: {_short(res[key])}\n b={ref_b}: {_short(ref[key])}",
-                                "buf": b,
+                                          f" b={b}: {_short(res[key])}\n b={ref_b}: {_short(ref[key])}"
+                                          + (f"\n (buffer sizes used in this process, in order: {order[:pos + 1]})" if b == ref_b or case.get("ordered") else ""),
+                                "buf": b, "pos": pos,
                             })
                             break
                     if violations:
@@ -379,7 +407,7 @@ def execute_case(case, run_seed, tier, tag=""):
             "violations": [
                 {
                     "oracle": v["oracle"], "site": v["site"], "detail": v["detail"],
-                    "replay": {"property": ID, "kind": "small", "case": dict(case, bufs=sorted({v["buf"], max(case["bufs"])})),
+                    "replay": {"property": ID, "kind": "small", "case": _replay_case(case, v),
                                "expect": {"oracle": v["oracle"]}},
                 }
                 for v in violations
@@ -388,6 +416,21 @@ def execute_case(case, run_seed, tier, tag=""):
         return out
     finally:
         sandbox.remove(root)
+
+
+def _replay_case(case, v):
+    """The buffer sizes a replay needs: reference and failing size - or, where
+    the order of use may matter, everything used up to the failing one."""
+    order = list(case["bufs"]) if case.get("ordered") else sorted(case["bufs"], reverse=True)
+    if len(order) > 1:
+        order.append(order[0])
+    pos = v.get("pos", len(order) - 1)
+    if case.get("ordered") or (pos == len(order) - 1 and len(order) > 1):
+        used = order[:pos + 1]
+        if len(used) > 1 and used[-1] == used[0]:
+            used = used[:-1]  # the repeat of the first is appended again at run time
+        return dict(case, bufs=used, ordered=True)
+    return dict(case, bufs=sorted({v["buf"], max(case["bufs"])}))
 
 
 def _short(x):
@@ -778,6 +821,11 @@ def shrink_candidates(obj):
     if obj.get("kind") in ("long", "large"):
         return
     case = obj["case"]
+    if case.get("ordered") and len(case["bufs"]) > 2:
+        for bi in range(len(case["bufs"])):
+            c = copy.deepcopy(obj)
+            del c["case"]["bufs"][bi]
+            yield c
     for si, sc in enumerate(case["scaffolds"]):
         if len(case["scaffolds"]) > 1:
             c = copy.deepcopy(obj)
